@@ -40,6 +40,52 @@ class TraceLock:
         self.release()
 
 
+class Worker:
+    """A long-lived thread that makes the calls of one protocol thread (`@k`).  Same contract as
+    util.call_guarded (ok / raise / hang), but the thread stays alive between calls: a lock leaked by one call stays
+    owned by a *living* thread, so calls from the other workers really block (a dead owner's ident can be reused by
+    the next thread, which would then re-enter the RLock and mask the leak)."""
+
+    def __init__(self):
+        import queue
+        import threading
+        self.q = queue.SimpleQueue()
+        self.th = threading.Thread(target=self._loop, daemon=True)
+        self.th.start()
+
+    def _loop(self):
+        while True:
+            job = self.q.get()
+            if job is None:
+                return
+            fn, box, ev = job
+            try:
+                box["v"] = fn()
+            except BaseException as e:  # noqa
+                box["e"] = e
+            ev.set()
+
+    def call(self, fn, timeout):
+        import threading
+        box, ev = {}, threading.Event()
+        self.q.put((fn, box, ev))
+        if not ev.wait(timeout):
+            return "hang", None
+        if "e" in box:
+            return "raise", box["e"]
+        return "ok", box.get("v")
+
+    def stop(self):
+        self.q.put(None)
+
+
+def strip_thread(t):
+    """`@k op ...` -> (k, [op, ...])"""
+    if t and t[0].startswith("@"):
+        return (int(t[0][1:]) if t[0][1:].isdigit() else 0), t[1:]
+    return 0, t
+
+
 class LogSLock(util.SLock):
     """Scheduler-aware lock that also records when a thread enters / leaves its outermost locked region."""
 
@@ -95,7 +141,7 @@ def trace_is_path(facts, method, evs):
     return method in bodies and n in run(bodies[method], {0})
 
 
-METHOD_OF = {"ingest": "ingest", "ingest_error": "ingest_error", "ingest_sensitive": "ingest_sensitive",
+METHOD_OF = {"ingest": "ingest", "ingestat": "ingest", "ingest_error": "ingest_error", "ingest_sensitive": "ingest_sensitive",
              "digest": "digest", "autophagy": "autophagy", "clearbin": "clear_recycling_bin"}
 
 
@@ -110,7 +156,8 @@ class C13(Prop):
     thorough_deadline_s = 800
     all_branches = ["conc:linearised", "ingest:plain", "ingest:emergency", "ingest:emergency-dropped", "ingest:capacity-noop",
                     "ingest:auto", "ingest:auto-all", "ingest:auto-error-logged", "digest:none", "digest:zero",
-                    "digest:pos", "digest:neg", "digest:errors", "digest:empty", "autophagy:some", "autophagy:none"]
+                    "digest:pos", "digest:neg", "digest:errors", "digest:empty", "autophagy:some", "autophagy:none",
+                    "autophagy:raises-on-aware-timestamp"]
     assumptions = [
         "digesters and the on_toxic callback return a dict / None or raise an Exception; they do not call back into "
         "the lysosome and do not raise BaseException",
@@ -186,11 +233,42 @@ class C13(Prop):
             return f"adv {max(0, rng.choice([base - 1, base, base + 1, 1, base // 2, 0, 2 * base]))}"
         return "clearbin"
 
+    PAST = -63_902_822_400_000_000        # datetime(1, 1, 1) on the harness clock (t0 = 2026-01-01), µs
+    FUTURE = 251_635_075_199_999_999      # datetime.max
+
+    def _stamped(self, rng, nid, ret):
+        st = rng.choice(["aware", "aware", self.PAST, self.FUTURE, -abs(ret), -abs(ret) - 1, 1])
+        return f"ingestat {st} {rng.choice(TYPES)} {nid} {rng.choice([0, 1, 2, 3])}"
+
     def _history(self, rng, n_ops):
         cfg, (mq, at, ret) = self._cfg(rng)
         lines = [cfg]
+        threads = rng.random() < 0.5
         for k in range(n_ops):
-            lines.append(self._op(rng, k + 1, ret))
+            op = self._stamped(rng, k + 1, ret) if rng.random() < 0.06 else self._op(rng, k + 1, ret)
+            if threads and rng.random() < 0.4 and not op.startswith("adv"):
+                op = f"@{rng.choice([1, 1, 2])} " + op
+            lines.append(op)
+        return lines
+
+    def _fault_then_other_thread(self, rng):
+        """a call that raises inside a locked region (autophagy meeting a timezone-aware created_at), then calls on
+        the same object from other, still living threads"""
+        mq = rng.choice([4, 6, 8, 1000])
+        cfg = f"cfg {mq} {rng.choice([mq + 1, 1000, 3, 5])} {rng.choice(RETS)} ssss b set"
+        lines, nid = [cfg], 0
+        for _ in range(rng.randint(0, 2)):
+            nid += 1
+            lines.append(f"ingest {rng.choice(TYPES)} {nid} {rng.choice([0, 1, 2, 3])}")
+        nid += 1
+        lines.append(f"@{rng.choice([0, 0, 1])} ingestat aware {rng.choice(TYPES)} {nid} 2")
+        first = rng.choice([0, 0, 1])
+        lines.append(f"@{first} autophagy")
+        for _ in range(rng.randint(1, 4)):
+            nid += 1
+            other = rng.choice([k for k in (0, 1, 2) if k != first] + [first])
+            lines.append(f"@{other} " + rng.choice([f"ingest exp {nid} 2", "digest none", "digest 1", "autophagy",
+                                                       f"ingest_sensitive {nid} 1", f"ingest_error {nid} 2"]))
         return lines
 
     def _conc(self, rng):
@@ -226,6 +304,9 @@ class C13(Prop):
                 yield {"lines": self._conc(rng), "note": "two threads under the line-level scheduler"}
             elif r < 0.16:
                 yield {"lines": [self._cfg(rng)[0], "frob 1", "digest", "ingest exp", "digest none"], "note": "malformed"}
+            elif r < 0.24:
+                yield {"lines": self._fault_then_other_thread(rng),
+                       "note": "a call raises inside a locked region, then calls from other living threads"}
             else:
                 yield {"lines": self._history(rng, rng.choice([1, 2, 3, 4, 6, 8, 10, 12, 14])), "note": "random history"}
 
@@ -244,6 +325,15 @@ class C13(Prop):
                                   "note": f"exhaustive depth {k}"})
         spaces = [{"name": f"all histories of <= {depth} ops over a 7-op alphabet on {len(cfgs)} configurations",
                    "cases": cases}]
+        alpha2 = ["ingestat aware exp {i} 2", "ingest exp {i} 2", "autophagy", "digest none", "@1 autophagy",
+                  "@1 ingest exp {i} 2", "@1 digest none"]
+        c2 = []
+        for k in range(1, 4 if tier == "quick" else 5):
+            for ops in itertools.product(alpha2, repeat=k):
+                c2.append({"lines": ["cfg 4 5 3515625 ssss b set"] + [o.format(i=j + 1) for j, o in enumerate(ops)],
+                           "note": f"two living threads, timezone-aware created_at, depth {k}"})
+        spaces.append({"name": "all histories of <= 3 (quick) / 4 (thorough) ops over {aware ingest, ingest, autophagy, "
+                               "digest} x {thread 0, thread 1}", "cases": c2})
         if tier != "quick":
             # every schedule prefix of 2 x 2 operations is too many; exhaust the *burst patterns* instead:
             # all 2-thread programs of one op each over {ingest, digest, autophagy} x 64 seeded schedules
@@ -315,7 +405,8 @@ class C13(Prop):
         clock = self.clock
 
         def ingest_at_fake_time(waste):      # Waste.created_at's default factory captured the real datetime.now
-            waste.created_at = clock.now()
+            if not hasattr(waste, "vf"):
+                waste.created_at = clock.now()
             return orig(waste)
         lys.ingest = ingest_at_fake_time
         ctx["reentrant"] = "RLock" in type(lys._lock).__name__
@@ -347,10 +438,17 @@ class C13(Prop):
         """One operation on the real object (no guarding here).  Returns the observation head."""
         L, lys = self.L, ctx["lys"]
         op = t[0]
-        if op == "ingest":
+        if op in ("ingest", "ingestat"):
+            if op == "ingestat":
+                import datetime as _dt
+                stamp, t = t[1], [t[0]] + t[2:]
+                created = (self.clock.now().replace(tzinfo=_dt.timezone.utc) if stamp == "aware"
+                           else self.clock.t0 + _dt.timedelta(microseconds=int(stamp)))
+            else:
+                created = self.clock.now()
             ty, i, c = t[1], int(t[2]), int(t[3])
             w = L.Waste(waste_type=ctx["order"][TYPES.index(ty)], content=self._content(ctx, ty, i, c),
-                        created_at=self.clock.now())
+                        created_at=created)
             w.vf = (ctx["seq"], i)
             ctx.setdefault("ids", {})[ctx["seq"]] = i
             ctx["types"][ctx["seq"]] = ty
@@ -457,13 +555,22 @@ class C13(Prop):
     def run_impl(self, case):
         obs, snaps = [], []
         ctx = None
+        workers = {}
         for line in case["lines"]:
-            t = line.split()
+            tid, t = strip_thread(line.split())
             snap = None
+            if not t:
+                obs.append("bad-op")
+                snaps.append(None)
+                continue
             try:
                 if t[0] == "cfg" and len(t) in (7, 8):
                     # the model's lock flag is the lock kind E3 extracts from the source under test
-                    case["lines"][case["lines"].index(line)] = " ".join(t[:7] + [self.facts["kind"]])
+                    case["lines"][case["lines"].index(line)] = " ".join(line.split()[:len(line.split()) - len(t)]
+                                                                        + t[:7] + [self.facts["kind"]])
+                    for w in workers.values():
+                        w.stop()
+                    workers = {}
                     ctx = self._mk(t)
                     self.clock.us = 0
                     del self.records[:]
@@ -474,7 +581,7 @@ class C13(Prop):
                     o, snap = self._conc_run(ctx, t)
                     # environment recording: hand the observed order of atomic actions to the model
                     k = case["lines"].index(line)
-                    base = " ".join(t[:4])
+                    base = " ".join(line.split()[:len(line.split()) - len(t)] + t[:4])
                     case["lines"][k] = base + (" @ " + " ".join(snap["acts"]) if snap and snap.get("acts") is not None
                                                else "")
                     obs.append(o)
@@ -486,7 +593,9 @@ class C13(Prop):
                     obs.append("ok | " + d)
                 elif self._wellformed(t):
                     del ctx["lockev"][:]
-                    kind, val = util.call_guarded(lambda: self._do(ctx, t), timeout=self._timeout())
+                    if tid not in workers:
+                        workers[tid] = Worker()
+                    kind, val = workers[tid].call(lambda: self._do(ctx, t), timeout=self._timeout())
                     evs = list(ctx["lockev"])
                     if kind == "hang":
                         self.hangs_seen += 1
@@ -496,12 +605,13 @@ class C13(Prop):
                     elif kind == "raise":
                         if isinstance(val, (KeyError, ValueError, IndexError)) and not self._wellformed(t):
                             obs.append("bad-op")
-                        else:
-                            obs.append(f"raise:{type(val).__name__}")
-                            snap = {"raise": type(val).__name__}
-                    else:
-                        head = val[0] if isinstance(val, tuple) else val
+                            kind = None
+                    if kind in ("ok", "raise"):
+                        head = f"raise:{type(val).__name__}" if kind == "raise" else (
+                            val[0] if isinstance(val, tuple) else val)
                         d, snap = self._dump(ctx)
+                        if kind == "raise":
+                            snap["raise"] = type(val).__name__
                         facts = getattr(self, "facts", None)
                         if facts and facts.get("recognised") and not trace_is_path(facts, METHOD_OF[t[0]], evs):
                             d += " lock-trace-not-a-path-of-the-extracted-shape[" + ",".join(evs) + "]"
@@ -512,6 +622,8 @@ class C13(Prop):
             except (ValueError, IndexError):
                 obs.append("bad-op")
             snaps.append(snap)
+        for w in workers.values():
+            w.stop()
         return obs, {"snaps": snaps}
 
     @staticmethod
@@ -520,6 +632,8 @@ class C13(Prop):
             return x.lstrip("-").isdigit()
         if t[0] == "ingest":
             return len(t) == 4 and t[1] in TYPES and t[2].isdigit() and t[3].isdigit()
+        if t[0] == "ingestat":
+            return len(t) == 5 and (t[1] == "aware" or isint(t[1])) and t[2] in TYPES and t[3].isdigit() and t[4].isdigit()
         if t[0] == "ingest_error":
             return len(t) == 3 and t[1].isdigit() and t[2].isdigit() and int(t[2]) >= 1
         if t[0] == "ingest_sensitive":
@@ -555,7 +669,8 @@ class C13(Prop):
                     self._do(ctx, op)
             return f
         # a real deadlock is detected by the scheduler at once (threads exit); the long join only guards a slow machine
-        finished = sched.run([body(i, p) for i, p in enumerate(progs)], join_timeout=20)
+        finished = sched.run([body(i, p) for i, p in enumerate(progs)],
+                             join_timeout=20 if self.hangs_seen < 2 else 3)
         ctx["alog"] = None
         dead = (not finished) or sched.deadlock or any(r is None or r[0] != "ok" for r in sched.results)
         snap = {"conc": True, "finished": finished, "deadlock": sched.deadlock,
@@ -612,23 +727,30 @@ class C13(Prop):
         queued = []               # seqs in the queue after the previous call
         expired, processed = set(), []
         prev_bin = []
+        aware = set()             # seqs whose created_at is timezone-aware
         for idx, (line, o, snap) in enumerate(zip(case["lines"], obs, snaps)):
-            t = line.split()
+            _tid, t = strip_thread(line.split())
+            if not t:
+                continue
             if t[0] == "cfg" and o == "ok":
                 mq, at = int(t[1]), int(t[2])
                 toxic_builtin, ontox = t[5] == "b", t[6] == "set"
                 n_ing, types, queued, expired, processed = 0, {}, [], set(), []
                 prev_bin = []
+                aware = set()
                 continue
             if o in ("bad-op", "dead") or mq is None:
                 continue
-            is_call = t[0] in ("ingest", "ingest_error", "ingest_sensitive", "digest", "autophagy", "conc")
+            is_call = t[0] in ("ingest", "ingestat", "ingest_error", "ingest_sensitive", "digest", "autophagy", "conc")
             if not is_call:
                 if snap is not None and "bin" in snap:
                     prev_bin = snap["bin"]
                 continue
             if t[0].startswith("ingest"):
-                types[n_ing] = "tox" if t[0] == "ingest_sensitive" else ("fop" if t[0] == "ingest_error" else t[1])
+                types[n_ing] = "tox" if t[0] == "ingest_sensitive" else ("fop" if t[0] == "ingest_error" else
+                                                                          (t[2] if t[0] == "ingestat" else t[1]))
+                if t[0] == "ingestat" and t[1] == "aware":
+                    aware.add(n_ing)
                 n_ing += 1
             if t[0] == "conc" and snap is not None:
                 types.update(snap.get("types", {}))
@@ -641,8 +763,13 @@ class C13(Prop):
                                      idx))
                 break
             if o.startswith("raise:"):
-                out.append(Violation("every_call_returns", f"{t[0]} returns normally", o, idx))
-                break
+                # the one exception a caller's legal data can provoke: autophagy compares its naive now() with every
+                # queued created_at, a timezone-aware one makes that comparison a TypeError.  Control returns to the
+                # caller; everything else (accounting, later calls from any thread) must go on as usual.
+                tolerated = (t[0] == "autophagy" and o.startswith("raise:TypeError") and bool(aware & set(queued)))
+                if not tolerated:
+                    out.append(Violation("every_call_returns", f"{t[0]} returns normally", o.split(" | ")[0], idx))
+                    break
             if snap is None:
                 continue
             # 2. queue bound
